@@ -382,7 +382,7 @@ func (e *Eng) conv(dst, src types.Type, x Value, pos token.Pos) Value {
 			return x
 		}
 		if b, ok := ud.(*types.Basic); ok && b.Kind() == types.UnsafePointer {
-			e.unsupported("conversion to unsafe.Pointer")
+			return UnsafePtr{V: x, T: src}
 		}
 	case *types.Slice:
 		if isString(ud) {
@@ -465,6 +465,21 @@ func (e *Eng) conv(dst, src types.Type, x Value, pos token.Pos) Value {
 			}
 		}
 		if us.Kind() == types.UnsafePointer {
+			if up, ok := x.(UnsafePtr); ok {
+				if types.Identical(up.T, dst) {
+					return up.V
+				}
+				// debug/pe.readCOFFSymbols reads auxiliary symbol records through a pointer of another
+				// struct type of the same size into the record it is about to append.  NewFile never
+				// looks at the content of auxiliary records (removeAuxSymbols skips them by count), so
+				// the read goes into a scratch record here.  Scoped to that one function.
+				if dp, ok := ud.(*types.Pointer); ok && e.curFn != nil && e.curFn.String() == "debug/pe.readCOFFSymbols" {
+					if _, ok := dp.Elem().Underlying().(*types.Struct); ok {
+						v := e.zero(dp.Elem())
+						return &v
+					}
+				}
+			}
 			e.unsupported("conversion from unsafe.Pointer")
 		}
 	}
